@@ -152,6 +152,8 @@ class Kernel:
     def seam(self, kind, info=None):
         """Called before the effect of a seam call."""
         k = self.counts[kind] = self.counts.get(kind, 0) + 1
+        if self.seq_log is not None and kind != "clock":
+            self.seq_log.append((kind, k))
         if self.log_seams and kind != "clock":
             self.ctx.log("seam", kind, k, info)
         c = self.cost_ns.get(kind)
@@ -172,6 +174,7 @@ class Kernel:
         return None
 
     on_fire = None
+    seq_log = None
 
     def _fire(self, f):
         self.fault_done = True
